@@ -108,6 +108,43 @@ def readers(hpo):
 OTHERS = {'int': 5, 'none': None, 'bytes': b'/tmp/x', 'pathlib.Path': None, 'float': 1.5, 'list': ['x'], 'dict': {}}
 
 
+class BareIO(io.IOBase):
+    """an io.IOBase that is neither a text, a buffered nor a raw stream (like tempfile.SpooledTemporaryFile on 3.11+):
+    it reads / writes fine but is none of the argument kinds the property lists"""
+
+    def __init__(self, content):
+        self._content, self._pos, self.written = content, 0, []
+
+    def readable(self):
+        return True
+
+    def writable(self):
+        return True
+
+    def read(self, n=-1):
+        n = len(self._content) - self._pos if n is None or n < 0 else n
+        out = self._content[self._pos:self._pos + n]
+        self._pos += len(out)
+        return out
+
+    def readline(self, n=-1):
+        nl = '\n' if isinstance(self._content, str) else b'\n'
+        k = self._content.find(nl, self._pos)
+        end = len(self._content) if k < 0 else k + 1
+        out = self._content[self._pos:end]
+        self._pos = end
+        return out
+
+    def write(self, data):
+        self.written.append(data)
+        return len(data)
+
+
+import tempfile        # noqa: E402
+OTHERS.update({'iobase-only:text': BareIO(''), 'iobase-only:bytes': BareIO(b''),
+               'spooled:text': tempfile.SpooledTemporaryFile(mode='w+'), 'spooled:binary': tempfile.SpooledTemporaryFile(mode='w+b')})
+
+
 EOLS = {'lf': '\n', 'crlf': '\r\n', 'cr': '\r'}
 
 
